@@ -1,6 +1,6 @@
 """C14 - LQR: system-clock typestate; roll-out feasibility and cost pairing."""
 import ast
-from ..core import RuleResult, Finding, AnalysisError, dotted, src, norm_construct
+from ..core import RuleResult, Finding, AnalysisError, dotted, src, norm_construct, guarded, guarded_list
 from ..expr import inline_straight, dump, subst, Inliner
 from .. import paths
 
@@ -30,6 +30,7 @@ def _events_of_stmt(repo, f, st):
     return out
 
 
+@guarded
 def rule_clk(repo, tier):
     res = RuleResult('C14.CLK', 'every roll-out of self.system inside LQR is preceded, on every path, by a clock reset with no '
                      'other roll-out or time-setting call in between', floor=2)
@@ -111,6 +112,7 @@ def _inside(outer, inner):
 
 # ------------------------------------------------------------------ FEAS / COST (loop body of lqr_forward)
 
+@guarded
 def rule_feas_cost(repo, tier):
     res = RuleResult('C14.FEAS', 'lqr_forward: x[0] is x_init; the u_t stored is the u_t applied; x[t+1] is the system output for '
                      '(x_t, u_t); the cost term of step t pairs (x_t, u_t) taken before x advances with Q_t, p_t', floor=4)
@@ -228,6 +230,7 @@ def _is_first_output_of(val, c, env):
     return False
 
 
+@guarded
 def rule_gain(repo, tier):
     res = RuleResult('C14.GAIN', 'lqr_backward: the gains solve with the blocks of the value-function Hessian themselves - the factor handed to '
                      'cholesky_solve is the Cholesky factor of exactly Qt[ns:, ns:] (no added regularisation), K_t = -solve(Qt[ns:, :ns]), '
@@ -314,6 +317,7 @@ def rule_gain(repo, tier):
     return res
 
 
+@guarded
 def rule_best(repo, tier):
     res = RuleResult('C14.BEST', 'MPC keeps the best-so-far iterate: the record is replaced only by an iterate whose cost is strictly lower (or when '
                      'empty), all three fields are replaced together from the same LQR call, and the final solve starts from the best input '
@@ -377,6 +381,7 @@ def rule_best(repo, tier):
     return res
 
 
+@guarded
 def rule_dyn(repo):
     """the transition the roll-outs rely on: the LTI/LTV equations (same analysis as C15.EQ, reported for C14: feasibility clause)"""
     from .c15 import rule_eq
